@@ -89,7 +89,6 @@ type caseRun struct {
 	release  chan struct{}
 	gated    int32
 	phase    int32
-	waitedAt int64
 	mu       sync.Mutex
 	mainLog  map[int][]arrival
 	reLog    map[int][]arrival
@@ -317,7 +316,6 @@ func (c *caseRun) gate(point string, height int64, view []peer.ID, index []int, 
 	}
 	c.mu.Unlock()
 	if point == "waited" {
-		atomic.StoreInt64(&c.waitedAt, a.seq)
 		atomic.StoreInt32(&c.phase, 1)
 	}
 	if c.emit != nil {
@@ -510,26 +508,30 @@ func (c *caseRun) evaluate(done bool) verdict {
 			}
 		}
 	}
-	// the same observable as the peers see it: a peer that does not answer h usefully and
-	// sees a second request for h within the main pass (before wg.Wait returned) or within the re-download pass
-	waited := atomic.LoadInt64(&c.waitedAt)
-	cnt := map[[3]int]int{}
+	// the same observable as the peers see it, by counting only (a scripted peer logs a request when its
+	// handler gets to read it, which under load can be long after the downloader gave up on it, so the
+	// order of the peers' log entries relative to the downloader's passes means nothing): a peer that does
+	// not serve h and sees more requests for h than there were downloadBlock passes for h was asked twice
+	// within one of them
+	cnt := map[[2]int]int{}
 	for _, r := range reqs {
 		h := int(r.height - c.base)
 		for p := 1; p <= c.cfg.np; p++ {
 			if c.nodeOf[p-1] == r.node && h >= 1 && h <= c.cfg.nh {
-				ph := 0
-				if waited != 0 && r.seq > waited {
-					ph = 1
-				}
-				cnt[[3]int{p, h, ph}]++
-				if cnt[[3]int{p, h, ph}] == 2 && c.cfg.kind(p, h) != "ok" && !seen[[2]int{p, h}] {
-					seen[[2]int{p, h}] = true
-					v.reask = append(v.reask, [2]int{p, h})
-					if v.reaskPass == "" {
-						v.reaskPass = []string{"main", "re"}[ph]
-					}
-				}
+				cnt[[2]int{p, h}]++
+			}
+		}
+	}
+	for k, n := range cnt {
+		npass := 1
+		if _, ok := passes[fmt.Sprintf("re/%d", k[1])]; ok {
+			npass = 2
+		}
+		if n > npass && c.cfg.kind(k[0], k[1]) != "ok" && !seen[k] {
+			seen[k] = true
+			v.reask = append(v.reask, k)
+			if v.reaskPass == "" {
+				v.reaskPass = "seen-by-peer"
 			}
 		}
 	}
